@@ -1,7 +1,7 @@
 (* C36 — RDF serializations round-trip every triple set.
    Property theorems only; proofs live in proofs/RdfProofs.v.  Partial by design: the
-   decoders are specifications of what rio's parsers read on the formatters' output, and
-   RDF/XML is carried only as far as escaping and split_iri (see checks/C36.json). *)
+   decoders (N-Triples, Turtle, RDF/XML) are specifications of what rio's parsers read on the
+   formatters' output, tied to the real parsers by correspondence (see checks/C36.json). *)
 From Coq Require Import List NArith Bool String.
 From Verif Require Import Rdf RdfProofs.
 Import ListNotations.
@@ -52,11 +52,39 @@ Theorem C36_xml_split_iri : forall i,
   (snd (split_iri i) = [] \/ ncname (snd (split_iri i)) = true).
 Proof. exact split_iri_spec. Qed.
 
-(* The property at full strength for the two text formats (RDF/XML has no decoder in the
-   model): false, because of the known class. *)
+(* RDF/XML: every list of well-formed triples outside the four recorded classes comes
+   back identical through RdfXmlFormatter's text (rdf:Description grouping, property
+   elements named by split_iri, escaped attributes and text) *)
+Definition Known_C36_xml (t : triple) : bool := known_xml t.
+Theorem C36_xml_rt : forall ts,
+  forallb wf_triple ts = true -> existsb Known_C36_xml ts = false ->
+  parse_xml (ser_xml ts) = Some ts.
+Proof. exact xml_roundtrip. Qed.
+
+(* each recorded RDF/XML class is real: rdf:nodeID "1" is rejected; " " comes back as "";
+   rdf:li comes back as rdf:_1; rdf:about as a predicate is rejected *)
+Theorem C36_xml_refuted :
+  (forallb wf_triple xml_witness_nodeid = true /\ existsb known_xml_nodeid xml_witness_nodeid = true /\
+   parse_xml (ser_xml xml_witness_nodeid) = None) /\
+  (forallb wf_triple xml_witness_ws = true /\ existsb known_xml_ws xml_witness_ws = true /\
+   parse_xml (ser_xml xml_witness_ws) = Some [(S_E, P_E, ROLit (RString []))]) /\
+  (forallb wf_triple xml_witness_li = true /\ existsb known_xml_reserved xml_witness_li = true /\
+   parse_xml (ser_xml xml_witness_li) = Some [(S_E, RDF_NS ++ [95; 49], ROLit (RString [120]))]) /\
+  (forallb wf_triple xml_witness_reserved = true /\ existsb known_xml_reserved xml_witness_reserved = true /\
+   parse_xml (ser_xml xml_witness_reserved) = None).
+Proof. exact xml_refuted. Qed.
+
+(* fifth class: the predicate <http://www.w3.org/2000/xmlns/> itself (empty local name, so
+   the formatter binds the prefix prop to the xmlns namespace, which quick-xml refuses) *)
+Theorem C36_xml_refuted_nsbind :
+  forallb wf_triple xml_witness_nsbind = true /\ existsb known_xml_nsbind xml_witness_nsbind = true /\
+  parse_xml (ser_xml xml_witness_nsbind) = None.
+Proof. exact xml_refuted_nsbind. Qed.
+
+(* The property at full strength, three formats: false, because of the known classes. *)
 Definition C36_full : Prop := forall ts,
   forallb wf_triple ts = true ->
-  parse_nt (ser_nt ts) = Some ts /\ parse_ttl (ser_ttl ts) = Some ts.
+  parse_nt (ser_nt ts) = Some ts /\ parse_ttl (ser_ttl ts) = Some ts /\ parse_xml (ser_xml ts) = Some ts.
 
 Theorem C36_refuted : exists ts,
   forallb wf_triple ts = true /\ existsb known_label ts = true /\
@@ -72,14 +100,25 @@ Definition C36_sample : list triple :=
     (SIri (s2l "http://e/s"), s2l "http://e/p", ROLit (RLang [] (s2l "en-us")));
     (SIri (s2l "http://e/s"), s2l "http://e/", ROLit (RTyped [32] (s2l "http://e/dt#")));
     (SBlank (s2l "0a.b"), s2l "http://e/q", ROBlank (s2l "0a.b")) ].
+(* the same without the digit-led label (not an NCName) and the blank-only literal *)
+Definition C36_xml_sample : list triple :=
+  [ (SIri (s2l "http://e/s"), s2l "http://e/p", ROLit (RString [34; 92; 10; 13; 1; 128512; 60; 38]));
+    (SIri (s2l "http://e/s"), s2l "http://e/p", ROLit (RLang [] (s2l "en-us")));
+    (SIri (s2l "http://e/s"), s2l "http://e/", ROLit (RTyped [32; 97] (s2l "http://e/dt#")));
+    (SBlank (s2l "a.b"), s2l "http://e/q1x", ROBlank (s2l "a.b"));
+    (SIri (s2l "http://e/s"), RDF_NS ++ s2l "type", ROIri (s2l "http://e/C?a=1&b='2'")) ].
 Example C36_nonvacuous :
   forallb wf_triple C36_sample = true /\ existsb known_label C36_sample = false /\
   parse_nt (ser_nt C36_sample) = Some C36_sample /\
   parse_ttl (ser_ttl C36_sample) = Some C36_sample /\
+  existsb Known_C36_xml C36_xml_sample = false /\ forallb wf_triple C36_xml_sample = true /\
+  parse_xml (ser_xml C36_xml_sample) = Some C36_xml_sample /\
   (forall t, In t C36_sample -> from_rio (to_rio t) = Some t).
 Proof.
   split; [vm_compute; reflexivity|]. split; [vm_compute; reflexivity|].
   split; [vm_compute; reflexivity|]. split; [vm_compute; reflexivity|].
+  split; [vm_compute; reflexivity|]. split; [vm_compute; reflexivity|].
+  split; [vm_compute; reflexivity|].
   intros t Ht. apply adapter_rt.
   assert (H : forallb wf_triple C36_sample = true) by (vm_compute; reflexivity).
   rewrite forallb_forall in H. apply H, Ht.
@@ -96,4 +135,7 @@ Print Assumptions C36_known_label_narrow.
 Print Assumptions C36_xml_escape_rt.
 Print Assumptions C36_xml_escape_no_markup.
 Print Assumptions C36_xml_split_iri.
+Print Assumptions C36_xml_rt.
+Print Assumptions C36_xml_refuted.
+Print Assumptions C36_xml_refuted_nsbind.
 Print Assumptions C36_refuted.
